@@ -419,7 +419,8 @@ Record inv (m : mem_arena) : Prop := {
   inv_geom : geom_ok (mbufs m);
   inv_in : slots_in (mrelocs m) (mbufs m);
   inv_no : NoOv (mrelocs m);
-  inv_init : 0 < minit m }.
+  inv_init : 0 < minit m;
+  inv_pin : mpinned m = false }.
 
 Record Rabs (m : mem_arena) (A : aarena) : Prop := {
   ra_rel : arelocs A = mrelocs m;
@@ -433,7 +434,7 @@ Record Rabs (m : mem_arena) (A : aarena) : Prop := {
    yr_arena_ptr_to_ref's search *)
 Lemma Rabs_abs m A : inv m -> Rabs m A -> absA m = A.
 Proof.
-  intros [G Hin Hno _] [R1 R2 R3 R4 R5]. unfold absA.
+  intros [G Hin Hno _ _] [R1 R2 R3 R4 R5]. unfold absA.
   destruct (mapslots_spec (cvt (mbufs m)) (mrelocs m) (mbufs m)) as ([SL S] & E & P); auto.
   { intros x _. apply enc_t_len. }
   set (l' := mapslots (cvt (mbufs m)) (mrelocs m) (mbufs m)) in *.
@@ -577,7 +578,7 @@ Lemma m_alloc_spec orc m b z x :
   match m_alloc orc m b z x with
   | MOk m' =>
       let l := mbufs m in let l' := mbufs m' in let rs := mrelocs m in
-      mrelocs m' = rs /\ minit m' = minit m /\
+      mrelocs m' = rs /\ (minit m' = minit m /\ mpinned m' = mpinned m) /\
       length l' = length l /\ geom_ok l' /\
       (forall j, j <> b -> base (bufof l' j) = base (bufof l j) /\
                            cap (bufof l' j) = cap (bufof l j) /\ used l' j = used l j) /\
@@ -587,11 +588,10 @@ Lemma m_alloc_spec orc m b z x :
       (forall j p, free_pos rs j p -> (p < used l j)%nat -> nth p (data (bufof l' j)) 0 = nth p (data (bufof l j)) 0)
   | MErr ENoMem => True
   | MBad BadPlacement => True
-  | MBad BadDirtyZero => True
   | _ => False
   end.
 Proof.
-  intros [G Hin Hno Hinit] Hb. unfold m_alloc.
+  intros [G Hin Hno Hinit Hpin] Hb. unfold m_alloc.
   replace (length (mbufs m) <? b)%nat with false by (symmetry; apply Nat.ltb_ge; lia).
   replace (b =? length (mbufs m))%nat with false by (symmetry; apply Nat.eqb_neq; lia).
   set (l := mbufs m) in *. set (mb := bufof l b). set (u := nlen (data mb)).
@@ -604,8 +604,8 @@ Proof.
       unfold placement_ok in Ep. apply andb_true_iff in Ep as [Ep Ep3]. apply andb_true_iff in Ep as [Ep1 Ep2].
       apply negb_true_iff, N.eqb_neq in Ep1. apply N.leb_le in Ep2.
       destruct (pick_size_ok _ _ _ _ _ Eg) as [Hfit _].
-      cbv zeta. cbn [mrelocs minit mbufs].
-      split; [reflexivity|]. split; [reflexivity|].
+      cbv zeta. cbn [mrelocs minit mbufs mpinned].
+      split; [reflexivity|]. split; [split; reflexivity|].
       apply (placed_spec l (mrelocs m) b nbase ncap x G Hin Hno Hb).
       * intros Hz. congruence.
       * rewrite Eu. exact Hfit.
@@ -615,9 +615,9 @@ Proof.
     + exfalso. eapply pick_never_hangs; eauto.
     + exact I.
   - apply N.ltb_ge in Egrow.
-    destruct (z && (nth b (mzlim m) 0 <? u + nlen x)); [exact I|].
-    cbv zeta. cbn [mrelocs minit mbufs].
-    split; [reflexivity|]. split; [reflexivity|].
+    rewrite Hpin, andb_false_r. cbn [andb].
+    cbv zeta. cbn [mrelocs minit mbufs mpinned].
+    split; [reflexivity|]. split; [split; reflexivity|].
     assert (Epl : upd l b (with_data mb (data mb ++ x)) = placed l (mrelocs m) b (base mb) (cap mb) x).
     { unfold placed. fold mb. rewrite N.eqb_refl. cbn [negb]. rewrite andb_false_r. reflexivity. }
     rewrite Epl.
@@ -634,7 +634,6 @@ Definition sim_res (r : mres mem_arena) (A' : aarena) : Prop :=
   | MOk m' => inv m' /\ Rabs m' A'
   | MErr ENoMem => True
   | MBad BadPlacement => True
-  | MBad BadDirtyZero => True
   | _ => False
   end.
 
@@ -664,7 +663,6 @@ Lemma sim_alloc orc m A b z xC xA news A' :
       inv (m_reg m' news) /\ Rabs (m_reg m' news) A'
   | MErr ENoMem => True
   | MBad BadPlacement => True
-  | MBad BadDirtyZero => True
   | _ => False
   end.
 Proof.
@@ -674,8 +672,8 @@ Proof.
   assert (Hb' : (b < length (mbufs m))%nat) by (rewrite <- R2; exact Hb).
   generalize (m_alloc_spec orc m b z xC I Hb').
   destruct (m_alloc orc m b z xC) as [m'|[]|[]]; auto.
-  cbv zeta. intros (Er & Ei & Ll & G' & Uo & Ub & Dn & Pp & Df) Hpt.
-  destruct I as [G Hin HnoR Hinit].
+  cbv zeta. intros (Er & (Ei & Epn) & Ll & G' & Uo & Ub & Dn & Pp & Df) Hpt.
+  destruct I as [G Hin HnoR Hinit Hpin].
   set (l := mbufs m) in *. fold u in Ub, Dn.
   assert (Ab : length (nth b (abufs A) []) = u) by apply R3.
   (* the new region of the concrete buffer holds xC *)
@@ -697,6 +695,7 @@ Proof.
       unfold sl_disj. destruct (Nat.eq_dec (fst s) b) as [E|N]; [|left; congruence].
       rewrite E in H3. fold l in H3. fold u in H3. right. left. lia.
     + now rewrite Ei.
+    + cbn [m_reg mpinned]. rewrite Epn. exact Hpin.
   - constructor; cbn [m_reg mbufs mrelocs abufs arelocs].
     + now rewrite R1, Er.
     + rewrite length_upd. fold l in R2. lia.
@@ -770,10 +769,10 @@ Lemma sim_poke m A b off xC xA news :
   (forall p, free_pos (mrelocs m ++ news) b p -> (off <= p < off + length xC)%nat ->
      nth (p - off) xA 0 = nth (p - off) xC 0) ->
   let m' := {| mbufs := poked (mbufs m) b off xC; mrelocs := mrelocs m ++ news; minit := minit m; mcalls := mcalls m;
-               mzlim := mzlim m |} in
+               mzlim := mzlim m; mpinned := mpinned m |} in
   inv m' /\ Rabs m' (let A1 := a_poke A b off xA in {| abufs := abufs A1; arelocs := arelocs A ++ news |}).
 Proof.
-  intros [G Hin HnoR Hinit] [R1 R2 R3 R4 R5] Hb Ho HL Hno Hnews Hsl Hfr. cbv zeta.
+  intros [G Hin HnoR Hinit Hpin] [R1 R2 R3 R4 R5] Hb Ho HL Hno Hnews Hsl Hfr. cbv zeta.
   set (l := mbufs m) in *.
   destruct (poked_spec l b off xC Hb Ho) as (Sh & Bo & Dp). set (l' := poked l b off xC) in *.
   assert (HbA : (b < length (abufs A))%nat) by (rewrite R2; exact Hb).
@@ -784,7 +783,7 @@ Proof.
   { intros p. rewrite nth_splice by lia. now rewrite HL. }
   assert (Sh' := Sh). destruct Sh' as [SL SS].
   split.
-  - constructor; cbn [mbufs mrelocs minit]; auto.
+  - constructor; cbn [mbufs mrelocs minit mpinned]; auto.
     + eapply geom_ok_shape; eauto.
     + intros s Hs. apply in_app_or in Hs as [Hs|Hs].
       * apply (slots_in_shape _ l l' Sh Hin s Hs).
@@ -961,7 +960,7 @@ Lemma sim_step orc m A o A' :
   inv m -> Rabs m A -> astep true A o = AOk A' -> sim_res (step orc m o) A'.
 Proof.
   intros Iv R Hs.
-  assert (I' := Iv). destruct I' as [G Hin Hno Hinit].
+  assert (I' := Iv). destruct I' as [G Hin Hno Hinit Hpin].
   assert (R' := R). destruct R' as [R1 R2 R3 R4 R5].
   destruct o as [b n|b x|b x|b n offs|b off t|b off t|b off x|b i t]; simpl in Hs.
   - apply of_mres_ok in Hs. now apply sim_alloc_plain with (A := A).
@@ -1113,7 +1112,7 @@ Proof. apply nth_repeat_any. Qed.
 Lemma init_ok nb cp : 0 < cp -> inv (init nb cp) /\ Rabs (init nb cp) (ainit nb).
 Proof.
   intros Hc. split.
-  - constructor; cbn [init mbufs mrelocs minit]; auto.
+  - constructor; cbn [init mbufs mrelocs minit mpinned]; auto.
     + split.
       * intros i Hi. unfold used. rewrite bufof_repeat. simpl. unfold two64. repeat split; lia.
       * intros i j _ _ _ Hb. rewrite bufof_repeat in Hb. simpl in Hb. congruence.
@@ -1149,7 +1148,7 @@ Qed.
 Theorem run_progress_proof nb ops cp orc :
   disciplined nb ops -> 0 < cp ->
   match run orc (init nb cp) ops with
-  | MOk _ => True | MErr ENoMem => True | MBad BadPlacement => True | MBad BadDirtyZero => True | _ => False
+  | MOk _ => True | MErr ENoMem => True | MBad BadPlacement => True | _ => False
   end.
 Proof.
   intros [A Ha] Hc. destruct (init_ok nb cp Hc) as [I0 R0].
@@ -1194,8 +1193,8 @@ Theorem save_independent_of_capacity_proof c nb ops cp cp' orc orc' m m' :
   save_mem c m = save_mem c m' /\ save_mem c m = save c (abs m).
 Proof.
   intros D Hc Hc' H1 H2. assert (D' := D). destruct D' as [A Ha].
-  destruct (abs_is_address_free _ _ _ _ _ _ Hc Ha H1) as [_ [_ I1 I2 _]].
-  destruct (abs_is_address_free _ _ _ _ _ _ Hc' Ha H2) as [_ [_ I3 I4 _]].
+  destruct (abs_is_address_free _ _ _ _ _ _ Hc Ha H1) as [_ [_ I1 I2 _ _]].
+  destruct (abs_is_address_free _ _ _ _ _ _ Hc' Ha H2) as [_ [_ I3 I4 _ _]].
   split; [|now apply save_mem_abs].
   apply save_address_free_proof; [exact I1|exact I2|exact I3|exact I4|].
   exact (growth_invisible_proof _ _ _ _ _ _ _ _ D Hc Hc' H1 H2).
@@ -1261,14 +1260,16 @@ Proof.
   intros H. vm_compute in H. discriminate H.
 Qed.
 
-(* yr_arena_allocate_zeroed_memory / yr_arena_allocate_struct zero only what a realloc made with the
-   ZERO flag adds.  After a growth caused by yr_arena_write_data the spare capacity is whatever
-   malloc returned, and a later "zeroed" allocation that fits into it is not zeroed: whether that
-   happens depends on the initial capacity (8: the write grows the buffer to 8 bytes, 3 spare bytes
-   are handed out as zeroed memory; 5: the allocation has to grow and is zeroed) *)
+(* PINNED CODE: yr_arena_allocate_zeroed_memory / yr_arena_allocate_struct zeroed only what a realloc
+   made with the ZERO flag added.  After a growth caused by yr_arena_write_data the spare capacity is
+   whatever malloc returned, and a later "zeroed" allocation that fits into it was not zeroed: whether
+   that happened depended on the initial capacity (8: the write grows the buffer to 8 bytes, 3 spare
+   bytes are handed out as zeroed memory; 5: the allocation has to grow and is zeroed).  The current
+   code ([init]) zeroes the region in every case. *)
 Definition dirty_ops : list op := [ OWrite 0 [1; 2; 3; 4; 5]; OAlloc 0 3 ].
-Lemma zeroed_allocation_not_zeroed_proof :
+Lemma zeroed_allocation_not_zeroed_pinned_proof :
   disciplined 1 dirty_ops /\
-  run orc_up (init 1 8) dirty_ops = MBad BadDirtyZero /\
-  is_ok (run orc_up (init 1 5) dirty_ops) = true.
-Proof. split; [eexists; vm_compute; reflexivity|]. split; vm_compute; reflexivity. Qed.
+  run orc_up (init_pinned 1 8) dirty_ops = MBad BadDirtyZero /\
+  is_ok (run orc_up (init_pinned 1 5) dirty_ops) = true /\
+  is_ok (run orc_up (init 1 8) dirty_ops) = true.
+Proof. split; [eexists; vm_compute; reflexivity|]. repeat split; vm_compute; reflexivity. Qed.
